@@ -609,6 +609,18 @@ def run_c14(chk):
                               "parse of its serialization", q))
                 break
     chk.cov["expanded_text_stream"] = "%d histories, %d successful edits" % (len(xcases), x_ok)
+    # nodes of a TWIN document (the same text read twice: equal by value, equal ids) offered to this one: whatever the calls
+    # answer, the keys of this document stay non-zero, distinct and increasing (round-9 seed C14-M compared documents by value
+    # and took the twin's nodes in - numbered in the twin's order table)
+    tw_docs = ["<r a='1' b='x&amp;y'><k>t</k>u<!--c--></r>", "<r><k/></r>", "<!DOCTYPE r><r id='v'>text</r><!--e-->", "<r/>",
+               "<r><a><b/>t</a><c i='1'/><!--x--></r>"]
+    tw_out = lib.run_lines(lib.build_harness(), [lib.req("foreign", t) for t in tw_docs], timeout=300, per_line_resume=True)
+    for t, o in zip(tw_docs, tw_out):
+        chk.count(["twin", t], nontrivial=True)
+        tail = o.rsplit(" | ", 1)[-1]
+        if "ord=BAD" in tail or o in ("panic", "abort", "timeout"):
+            mfail.append((t, ["foreign"], 1, "after calls that offered nodes of a twin document (same text read twice), the document-order "
+                          "keys of this document are not non-zero / distinct / increasing along the walk", (o if o in ("panic", "abort", "timeout") else tail)[:700]))
     chk.cov["queries_per_step"] = QUERIES.split(";")
     chk.cov["rule"] = ("%d edit histories; after EVERY step: order() of every attached node along the pre-order walk element -> attributes "
                        "-> attribute value items -> children is non-zero and strictly increasing, every detached node reports 0; and %d "
